@@ -38,6 +38,7 @@ TRIAGE = [
     (r"^vm::builtin::procedure::(eval|apply|call_cc)$", r"Overflow\(Sub\)", INV_IP + " (a builtin runs after the CALL opcode was read)"),
     (r"^vm::builtin::string::char_substring_offset$", r"Overflow\(Sub\)", "end is given only together with start; equal indices return early and end < start is rejected, so end >= 1 here"),
     (r"^vm::builtin::string::(string_list|string_copy|string_vector)$", r"index", OFFS),
+    (r"^number::big_quotient_to_f64$", r"ratio", "Ratio::new panics only for a zero denominator; the function returns on the line above when rhs.sign() is NoSign (zero)"),
     (r"^vm::builtin::vector::vector_to_list$", r"unwrap", "the index ranges over start..end and vector_range returned end <= vector.len(), so Vector::get is Some"),
     (r"^vm::builtin::string::vector_string$", r"unwrap", "the index ranges over start..end and end <= v.len() was checked just above (end defaults to v.len()), so Vector::get is Some"),
     (r"^vm::builtin::string::(string_fill|string_set)$", r"string-edit", OFFS),
